@@ -986,6 +986,23 @@ def is_item_count_test(atom):
     return "get_item_count" in r or all(m in r for m in ITEM_CONTAINERS)
 
 
+def without_item_count_tests(atoms):
+    """The atoms of a conjunction that are *not* tests of the block's item count.  Besides single atoms over all three item
+    containers (is_item_count_test), a group of per-container (non-)emptiness tests that covers every item container is
+    such a test written out: `qr.empty() && aec.empty() && mm.empty()`."""
+    rest = [a for a in atoms if not is_item_count_test(a)]
+    per = {}
+    for a in rest:
+        r = repr(a)
+        hit = [m for m in ITEM_CONTAINERS if m in r]
+        if len(hit) == 1 and ("nonempty" in r or "size(" in r):
+            per.setdefault(hit[0], []).append(a)
+    if len(per) == len(ITEM_CONTAINERS):
+        drop = set(id(a) for v in per.values() for a in v)
+        rest = [a for a in rest if id(a) not in drop]
+    return rest
+
+
 def eval_formula(f, val):
     """Three-valued evaluation of a guard formula under a valuation {key: int}: True / False / None (unknown atom)."""
     h = f[0]
